@@ -73,6 +73,7 @@ class Optimizer
 		static const int min_loop_score;
 		static const int max_sub_stack;
 		static const int max_loop_stack;
+		static const int max_loop_count;
 
 		int16_t sub_id;
 		int pass;
